@@ -571,6 +571,9 @@ impl<'a, B: BitmapSlice> VolatileSlice<'a, B> {
             //   guest memory without violating rust's aliasing rules)
             // - size is always a multiple of alignment, so treating *mut T as *mut u8 is fine
             unsafe { copy_from_volatile_slice(buf.as_mut_ptr() as *mut u8, self, total) }
+        } else if size_of::<T>() == 0 {
+            // Zero-sized elements occupy no memory: every element of `buf` is trivially copied.
+            buf.len()
         } else {
             let count = self.size / size_of::<T>();
             let source = self.get_array_ref::<T>(0, count).unwrap();
@@ -649,7 +652,7 @@ impl<'a, B: BitmapSlice> VolatileSlice<'a, B> {
             //   guest memory without violating rust's aliasing rules)
             // - size is always a multiple of alignment, so treating *mut T as *mut u8 is fine
             unsafe { copy_to_volatile_slice(self, buf.as_ptr() as *const u8, total) };
-        } else {
+        } else if size_of::<T>() != 0 {
             let count = self.size / size_of::<T>();
             // It's ok to use unwrap here because `count` was computed based on the current
             // length of `self`.
